@@ -241,7 +241,7 @@ def run(ctx):
                                                   "intersection %s incoming %s: %s -> %s (both remain) is gone" % (
                                                       iid, k, x, y), wit)
 
-    n = ctx.pick(200, 10000)
+    n = ctx.pick(200, 80000)
     for i, rng in ctx.cases("histories", n):
         net0 = gen_network(rng)
         sc = Scenario(0.1)
